@@ -18,6 +18,7 @@ Record tcase := {
 Definition check (k : tcase) : bool :=
   let isln := mem_rune (t_ln k) in
   let lower := assoc_rune (t_low k) in
+  negb (isln 0) && negb (isln 46) && negb (isln 64) &&   (* the table facts the theorems assume *)
   in_fragment isln lower (t_ctx k) (t_in k) &&
   match template isln lower (t_ctx k) (t_in k) with
   | Ok (out, errs) => text_eqb out (t_out k) && Bool.eqb (negb (Nat.eqb errs 0)) (t_err k)
